@@ -130,3 +130,60 @@ def hint_thr(h):
 def fused_of(f, it):
     """f is the candidate dict `it` with an added score_fused (all original keys carried over unchanged)"""
     return f["id"] == it["id"] and f.get("score") == it.get("score") and f.get("text") == it.get("text")
+# ---------------------------------------------------------------- C08: abstract file system (ghost `fs`)
+
+@spec
+def file_same(a, b, p):
+    """file p is the same in file systems a and b (both absent, or both present with equal content)"""
+    return ((p in a) == (p in b)) and implies(p in a, a[p] == b[p])
+
+
+@spec
+def file_is(a, p, data):
+    return (p in a) and a[p] == data
+
+
+@spec
+def no_temp_left(a, tmps):
+    return forall((q, 'str'), q in tmps, not (q in a))
+# ---------------------------------------------------------------- C09: run_parallel
+
+@spec
+def par_merged_ok(m, tasks):
+    """m lists every task's (key, result) exactly once, strictly ordered by (order_key(key), task index):
+    p is the sorting permutation (strictly increasing in a strict order => injective => a bijection on [0, n))"""
+    return (len(m) == len(tasks) and exists_fn(p,
+            forall(j, 0 <= j < len(m), 0 <= p(j) and p(j) < len(tasks) and m[j][0] == tasks[p(j)][0]
+                   and m[j][1] == task_res(p(j)))
+            and forall2(a, b, 0 <= a and a < b and b < len(m),
+                        (okey(tasks[p(a)][0]), p(a)) < (okey(tasks[p(b)][0]), p(b)))))
+
+
+@spec
+def par_errors_ok(L, tasks, started):
+    """L reports exactly the failed tasks among the `started` first ones, each once (key, exception type name,
+    message), strictly ordered by (order_key(key), task index)"""
+    return exists_fn(q,
+                     forall(t, 0 <= t < len(L), 0 <= q(t) and q(t) < started and task_fails(q(t))
+                            and L[t].key == tasks[q(t)][0] and L[t].exc_type == task_exc_type(q(t))
+                            and L[t].message == task_exc_msg(q(t)))
+                     and forall2(a, b, 0 <= a and a < b and b < len(L),
+                                 (okey(tasks[q(a)][0]), q(a)) < (okey(tasks[q(b)][0]), q(b)))
+                     and forall(i, 0 <= i < started and task_fails(i), exists(t, 0 <= t < len(L), q(t) == i)))
+
+
+# ---------------------------------------------------------------- C09: shard merge (hit dicts as dict-like records)
+
+@spec
+def hit_score(h):
+    return ite(h.has_score, h.score, ite(h.has__score, h._score, 0.0))
+
+
+@spec
+def hit_id(h):
+    return ite(h.has_id, h.id, 'None')
+
+
+@spec
+def hit_key(h):
+    return (0 - qscore_of(hit_score(h)), hit_id(h))
